@@ -275,3 +275,17 @@ func seqAccepted(qs []seqOut) bool {
 	}
 	return false
 }
+
+// Hooks let an in-package harness file (one that names unexported identifiers and may
+// therefore drop out after a refactoring) offer a read-out to an exported-API unit of the
+// external test package without being a compile dependency of it: the internals file
+// registers a function in its init, the unit looks it up at run time and degrades
+// gracefully when it is absent.
+var hooks sync.Map
+
+func SetHook(name string, f interface{}) { hooks.Store(name, f) }
+
+func Hook(name string) interface{} {
+	v, _ := hooks.Load(name)
+	return v
+}
